@@ -36,7 +36,7 @@ Not decided: that nom delivers the components it saw (run-time parser semantics)
     ];
     ctx.rule("abstract evaluation over opaque list elements (sizes 0..2) and over the order relations of (index, first-extension index)");
     let consts = const_resolver(m);
-    let ev = Evaluator { consts: &consts, call_hook: &crate::eval::no_hook };
+    let ev = Evaluator { consts: &consts, call_hook: &crate::eval::no_hook, inline: None };
 
     // ---------------- C05.index ----------------
     let impls = from_impls(m);
